@@ -11,13 +11,20 @@
    therefore an ordinary comparable panic case and nothing hangs.
    `fuel` is model-only: it bounds loop iterations that spend no budget (a
    grammar mistake); invariant NoSpin turns that into a TLC error. *)
-EXTENDS Integers, Sequences, TLC
+EXTENDS Integers, Sequences, FiniteSets, TLC
 
 None == [none |-> TRUE]
 IsNone(v) == "none" \in DOMAIN v
 Zero == 0
 
 Panicked(w) == w.panic # ""
+(* The panic value of a `panic` statement / panicking call is the opaque token "boom": the property (C18)
+   only says that the ORIGINAL value must come out of the advance.  The binding layer instantiates the
+   token per run by one of five Go values -- a string, an error value, a pointer, a struct value, a genuine
+   runtime error -- selected by PanicKind of the run's initial tape, and maps a recovered value back to
+   "boom" only when it IS that value (rt.Boom / rt.PanicStr in harness/rtsrc/rt.go); a wrapped, converted
+   or copied value is reported under a description that equals no expectation. *)
+PanicKind(tape) == (Len(tape) + Cardinality({i \in 1..Len(tape) : tape[i]})) % 5
 Spend(w) == IF w.budget = 0 THEN [w EXCEPT !.panic = "budget"] ELSE [w EXCEPT !.budget = @ - 1]
 Tick(w)  == IF w.fuel = 0 THEN [w EXCEPT !.panic = "spin"] ELSE [w EXCEPT !.fuel = @ - 1]
 
